@@ -565,6 +565,65 @@ async fn chain(ctx: &mut Ctx, nclients: usize, nworkers: usize, per: u32, captur
     }
 }
 
+/// A request arrives while no worker is connected yet; a worker joins; a second request
+/// follows. The proxy may give up with an error at the first request (it says so), but while
+/// it RUNS every message it received is forwarded: the worker sees request 0, then 1.
+async fn request_before_any_worker(ctx: &mut Ctx, case: &Value) {
+    let router = RouterSocket::new();
+    let dealer = DealerSocket::new();
+    let (fb, bb) = (router.backend(), dealer.backend());
+    let Ok(client) = Peer::attach_backend(fb.clone(), "DEALER", Some(b"early-client")).await else {
+        ctx.inconclusive("C15 attach".into());
+        return;
+    };
+    let mut px = Managed::new(zeromq::proxy(router, dealer, None));
+    let send_req = |i: u32| {
+        let mut w = vec![vec![]];
+        w.extend(rc::tagged(7, i, &[3]));
+        client.send(&w);
+    };
+    send_req(0);
+    let mut ended = false;
+    for _ in 0..200 {
+        if let Poll::Ready(_) = px.poll_once() {
+            ended = true;
+            break;
+        }
+        sim::settle().await;
+        if !px.woken() {
+            break;
+        }
+    }
+    if ended {
+        ctx.count("proxy_gave_up_on_a_request_without_worker");
+        return;
+    }
+    let Ok(worker) = Peer::attach_backend(bb.clone(), "DEALER", Some(b"late-worker")).await else {
+        ctx.inconclusive("C15 attach worker".into());
+        return;
+    };
+    send_req(1);
+    for _ in 0..400 {
+        if let Poll::Ready(_) = px.poll_once() {
+            break;
+        }
+        sim::settle().await;
+        if !px.woken() {
+            break;
+        }
+    }
+    let got: Vec<u32> = worker.out_msgs().unwrap_or_default().iter().filter_map(|m| rc::parse_tag(m, 2).ok().map(|t| t.seq)).collect();
+    if got != vec![0, 1] {
+        ctx.violation_with(
+            "C15/request-lost",
+            format!("request 0 arrived before any worker was connected and the proxy kept running; a worker joined and request 1 followed: the worker received requests {got:?} (expected [0, 1])"),
+            case.clone(),
+        );
+        return;
+    }
+    ctx.count("requests_held_until_a_worker_joined");
+}
+
 impl Prop for C15 {
     fn id(&self) -> &'static str {
         "C15"
@@ -572,6 +631,7 @@ impl Prop for C15 {
 
     fn cases(&self, tier: Tier, seed: u64) -> Vec<Value> {
         let mut v = Vec::new();
+        v.push(json!({"kind": "request_before_worker"}));
         for nc in 1..=4usize {
             for nw in 1..=3usize {
                 for k in 0..tier.pick(60, 6000) {
@@ -588,6 +648,11 @@ impl Prop for C15 {
     }
 
     fn run(&self, case: &Value, ctx: &mut Ctx) {
+        if s(case, "kind") == "request_before_worker" {
+            ctx.eval(hash_str(&case.to_string()), true);
+            sim::run(request_before_any_worker(ctx, case));
+            return;
+        }
         let nc = u(case, "clients") as usize;
         let nw = u(case, "workers") as usize;
         ctx.eval(hash_str(&case.to_string()), nc + nw > 2);
